@@ -12,7 +12,7 @@ import vlib
 PID = "C02"
 
 
-def table_selection(wd, v):
+def table_db(wd):
     """The analyzers look an observation up in the table of ITS kind: a SYN in [tcp:request], a SYN+ACK in [tcp:response], a request in
     [http:request], a response in [http:response] -- IPv4 and IPv6, sequential and parallel front ends and the unified analyzer.
     A database is built in which every observation of the trace is a signature of BOTH tables of its protocol, under a label that
@@ -53,6 +53,11 @@ def table_selection(wd, v):
                             ("http:request", "s:!:HttpRequestTable:x", http_texts), ("http:response", "s:!:HttpResponseTable:x", http_texts)):
         db += ["[%s]" % sec, "label = " + lab] + ["sig = " + t for t in sorted(texts)]
     dbtext = "\n".join(db) + "\n"
+    return frames, hexes, dbtext
+
+
+def table_selection(wd, v):
+    frames, hexes, dbtext = table_db(wd)
     # 2. with that database, through every front end
     lines = []
     for crate in ("tcp", "tcp_par", "http", "http_par", "uni"):
